@@ -90,6 +90,9 @@ def extract_image_corners(
     """
 
     corner_string = img_header.IGEOLO
+    if corner_string is None:
+        # no geolocation given (ICORDS blank, or 'N' for NITF 2.0)
+        return None
     # NB: there are 4 corner point string, each of length 15
     corner_strings = [corner_string[start:stop] for start, stop in zip(range(0, 59, 15), range(15, 74, 15))]
 
@@ -612,11 +615,11 @@ class NITFDetails(object):
         # populate symbol segment offset information - only version 2.0
         cur_loc, self.symbol_subheader_offsets, self.symbol_subheader_sizes, \
             self.symbol_segment_offsets, self.symbol_segment_sizes = self._element_offsets(
-                cur_loc, getattr(self._nitf_header, 'SymbolsSegments', None))
+                cur_loc, getattr(self._nitf_header, 'SymbolSegments', None))
         # populate label segment offset information - only version 2.0
         cur_loc, self.label_subheader_offsets, self.label_subheader_sizes, \
             self.label_segment_offsets, self.label_segment_sizes = self._element_offsets(
-                cur_loc, getattr(self._nitf_header, 'LabelsSegments', None))
+                cur_loc, getattr(self._nitf_header, 'LabelSegments', None))
 
         # populate text segment offset information
         cur_loc, self.text_subheader_offsets, self.text_subheader_sizes, \
